@@ -1,10 +1,11 @@
 import SqlizeModel.Driver.Core
 import SqlizeModel.Driver.Snake
+import SqlizeModel.Driver.Pair
 
 open Sqlize Sqlize.Driver
 
 def handlers : List (String × Handler) :=
-  [("snake", snakeHandler)]
+  [("snake", snakeHandler), ("pair", pairHandler)]
 
 def handleLine (line : String) : String :=
   match SExp.parse line with
